@@ -293,11 +293,35 @@ theorem all_shards_damaged_reads_empty :
       = .result ⟨[], false, (List.range wc.n).map (fun k => some (shardStream wc wcode wH k [])), []⟩ := by
   decide
 
+/-- … with `failWhenTooFewOpen` (fixes/C17-too-few-readable-shards-is-an-error.patch) that read fails at once
+and writes nothing. -/
+theorem all_shards_unopenable_fails_when_repaired :
+    read wc wcode wH { failWhenTooFewOpen := true } ((shardsOf partA).map fun s => s.map fun bs => (bs.headD 0 ^^^ 1) :: bs.drop 1)
+      = .result ⟨[], true, [none, none, none], []⟩ := by
+  decide
+
+/-- **Witness 3b — every shard damaged, still open for every repair short of a format change.** All three
+shards cut right behind their (valid) shard header: every shard opens, none shows a frame, the read
+returns the EMPTY part without error — also with all repairs (`Fix.repaired`): nothing in the format
+says how long the part is. -/
+theorem all_shards_cut_behind_header_read_empty :
+    read wc wcode wH Fix.repaired ((shardsOf partA).map fun s => s.map fun bs => bs.take 15)
+      = .result ⟨[], false, [none, none, none], []⟩ := by
+  decide
+
 /-- **Witness 4 — a frame-sized trailer breaks the read.** 48 extra bytes after ONE shard (≤ p faults):
 the stream delivers the whole part and then fails ("insufficient shards in stripe 1"). -/
 theorem trailing_bytes_fail_the_read :
     read wc wcode wH Fix.asIs (setShard (shardsOf partA) 1 (some (shardStream wc wcode wH 1 partA ++ List.replicate 48 0xab)))
       = .result ⟨partA, true, [none, none, none], [none, none, none]⟩ := by
+  decide
+
+/-- … with `endWhenEnoughEnded` (fixes/C17-trailing-garbage-is-a-bad-shard.patch) the same shard set reads
+back exactly: two of three readers are at their end, no valid frame is in sight — end of the part. -/
+theorem trailing_bytes_tolerated_when_repaired :
+    read wc wcode wH { endWhenEnoughEnded := true }
+        (setShard (shardsOf partA) 1 (some (shardStream wc wcode wH 1 partA ++ List.replicate 48 0xab)))
+      = .result ⟨partA, false, [none, none, none], []⟩ := by
   decide
 
 /-- **Witness 5 — a missing PARITY shard is "healed" with empty frames.** The parity shard is missing
